@@ -356,10 +356,15 @@ def _pixels(R, n, only):
 
 
 # ---- loaders (CLI and tabix) ------------------------------------------------------------------------
-def _write_lines(path, rows):
+def _write_lines(path, rows, header=(), interior=None):
+    """header: comment lines written first; interior: a comment line written after the second record"""
     with open(path, "w") as f:
-        for r in rows:
+        for h in header:
+            f.write(h + "\n")
+        for q, r in enumerate(rows):
             f.write("\t".join(str(x) for x in r) + "\n")
+            if interior is not None and q == 1:
+                f.write(interior + "\n")
 
 
 def _read_pixels(path):
@@ -406,8 +411,12 @@ def _loaders(R, B, k, only):
 
     # ---- cload pairs ----
     for ob in (0, 1):
-        pf = os.path.join(d, f"all_{ob}.pairs")
-        _write_lines(pf, [("r%d" % q, r[0], r[1] + ob, r[2], r[3] + ob, "+", "-") for q, r in enumerate(recs)])
+        pf0 = os.path.join(d, f"all_{ob}.pairs")
+        _write_lines(pf0, [("r%d" % q, r[0], r[1] + ob, r[2], r[3] + ob, "+", "-") for q, r in enumerate(recs)])
+        # the same records below a .pairs header (lines starting with '#', which every pairs file written by pairtools has)
+        pfh = os.path.join(d, f"allh_{ob}.pairs")
+        _write_lines(pfh, [("r%d" % q, r[0], r[1] + ob, r[2], r[3] + ob, "+", "-") for q, r in enumerate(recs)],
+                     header=("## pairs format v1.0", "#chromsize: %s 1" % names[0], "#columns: readID chr1 pos1 chr2 pos2 strand1 strand2"))
         for status, symm in (("unique", True), ("duplex", True), ("unique", False)):
             for cs in (5, 10 ** 6):
                 kk += 1
@@ -419,6 +428,9 @@ def _loaders(R, B, k, only):
                 R.add("transitions")
                 R.cls("loader:cload-pairs")
                 out = os.path.join(d, f"o{kk}.cool")
+                pf = pfh if (cs == 5) == symm else pf0
+                if pf is pfh:
+                    R.cls("input-with-header-lines")
                 args = ["cload", "pairs", "-c1", "2", "-p1", "3", "-c2", "4", "-p2", "5", "--chunksize", cs,
                         "--input-copy-status", status, "--temp-dir", d] + (["--zero-based"] if not ob else []) + ([] if symm else ["-N"]) + [bed, pf, out]
                 code, so, exc = build.cli(args)
@@ -479,12 +491,18 @@ def _loaders(R, B, k, only):
                         cellsrc = [(i, j) for i in range(n) for j in range(n)]
                     val = {c: alpha.value(n, min(c), max(c)) if symm else alpha.value(n, c[0], c[1]) for c in cellsrc}
                     pf = os.path.join(d, f"l{kk}.{fmt}")
+                    # comment lines (default '#', or --comment-char) at the top and between records are not records
+                    cc = None if cs != 3 else ("#" if not ob else "%")
+                    cm = {} if cc is None else {"header": (cc + " a header", cc + "another\tone\twith\ttabs\t1\t2\t3"), "interior": cc + "0\t0\t1000\t0\t0\t0\t1000"}
+                    if cc:
+                        R.cls("input-with-comment-lines")
                     if fmt == "coo":
-                        _write_lines(pf, [(i + ob, j + ob, val[(i, j)]) for (i, j) in cellsrc])
+                        _write_lines(pf, [(i + ob, j + ob, val[(i, j)]) for (i, j) in cellsrc], **cm)
                     else:
-                        _write_lines(pf, [(bins[i][0], bins[i][1] + ob, bins[i][2], bins[j][0], bins[j][1] + ob, bins[j][2], val[(i, j)]) for (i, j) in cellsrc])
+                        _write_lines(pf, [(bins[i][0], bins[i][1] + ob, bins[i][2], bins[j][0], bins[j][1] + ob, bins[j][2], val[(i, j)]) for (i, j) in cellsrc], **cm)
                     out = os.path.join(d, f"o{kk}.cool")
                     args = ["load", "-f", fmt, "--chunksize", cs, "--input-copy-status", status, "--temp-dir", d] \
+                        + (["--comment-char", cc] if cc == "%" else []) \
                         + (["--one-based"] if ob else []) + ([] if symm else ["-N"]) + [bed, pf, out]
                     code, so, exc = build.cli(args)
                     if code != 0 or exc is not None:
